@@ -24,7 +24,7 @@ var effectFreePrefixes = []string{
 	"math.", "math/bits.", "bytes.Equal", "bytes.Compare", "bytes.HasPrefix",
 	"com.tuntun.rangers/node/src/middleware/log.", "(com.tuntun.rangers/node/src/middleware/log.Logger).",
 	"(*com.tuntun.rangers/node/src/middleware/log.", "com.tuntun.rangers/node/src/utility.GetTime",
-	"com.tuntun.rangers/node/src/common.ToHex", "com.tuntun.rangers/node/src/common.Bytes2Hex", "com.tuntun.rangers/node/src/common.FromHex",
+	"com.tuntun.rangers/node/src/utility.StrToBytes", "com.tuntun.rangers/node/src/utility.BytesToStr", "com.tuntun.rangers/node/src/common.ToHex", "com.tuntun.rangers/node/src/common.Bytes2Hex", "com.tuntun.rangers/node/src/common.FromHex",
 	"(com.tuntun.rangers/node/src/common.Address).", "(com.tuntun.rangers/node/src/common.Hash).",
 	"com.tuntun.rangers/node/src/common.BytesToSign", "(*com.tuntun.rangers/node/src/common.Sign).Bytes", "(com.tuntun.rangers/node/src/common.Sign).Bytes", "(*com.tuntun.rangers/node/src/common.Sign).GetHexString",
 	"(time.Time).MarshalBinary", "(*math/big.Int).Bytes", "(*math/big.Int).String", "(*math/big.Int).Text",
@@ -48,7 +48,6 @@ var decodeInto = map[string]int{
 	"github.com/golang/protobuf/proto.Unmarshal": 1,
 	"(*time.Time).UnmarshalBinary":              0,
 	"(*time.Time).UnmarshalJSON":                0,
-	"(*math/big.Int).SetBytes":                  0,
 	"(*math/big.Int).SetString":                 0,
 }
 
@@ -266,11 +265,6 @@ func (vc *VC) call(fr *Frame, st *State, ins ssa.Instruction, cc *ssa.CallCommon
 		v := vc.freshVal(st, "ef!"+shortName(full), resType)
 		if full == "errors.New" || full == "fmt.Errorf" {
 			vc.assume(st, tNot(tEq(v.T, mk("(mk-iface 0 0)", sortIface))))
-		}
-		if full == "(*math/big.Int).Bytes" {
-			// big.Int.Bytes slices a buffer obtained from make, so its result is never nil (also for zero)
-			vc.usedLib("big.Int.Bytes (non-nil result)")
-			vc.assume(st, tNot(tEq(mk("(sl-ref "+v.T.S+")", sortRef), mk("0", sortRef))))
 		}
 		setRes(v)
 		return
